@@ -40,6 +40,18 @@ def leaf_diffs(old, new):
             if type(a) is not type(b):
                 out.append(('op', a, b, list(anc)))
             return
+        if isinstance(a, (ast.Break, ast.Continue)) and isinstance(b, (ast.Break, ast.Continue)):
+            if type(a) is not type(b):
+                out.append(('op', a, b, list(anc)))
+            return
+        if isinstance(a, ast.AugAssign) and isinstance(b, ast.Assign) and len(b.targets) == 1 or isinstance(a, ast.Assign) and isinstance(b, ast.AugAssign) and len(a.targets) == 1:
+            # `x += e` against `x = e`: the accumulation is one token
+            ta = a.target if isinstance(a, ast.AugAssign) else a.targets[0]
+            tb = b.target if isinstance(b, ast.AugAssign) else b.targets[0]
+            if ast.unparse(ta) == ast.unparse(tb) and leaf_diffs(a.value, b.value) == []:
+                out.append(('op', a.op if isinstance(a, ast.AugAssign) else ast.UAdd(), b.op if isinstance(b, ast.AugAssign) else ast.UAdd(), list(anc) + [(b, 'value')]))
+                return
+            raise _Shape()
         if type(a) is not type(b):
             # a `not` dropped or added in front of an otherwise identical expression is one token
             for x, y, what in ((a, b, 'not dropped'), (b, a, 'not added')):
@@ -74,8 +86,13 @@ def leaf_diffs(old, new):
                         out.append((_kind(b, f), x, y, list(anc) + [(b, f)]))
             elif isinstance(va, ast.AST):
                 if not isinstance(vb, ast.AST):
+                    if vb is None and isinstance(a, ast.Slice):
+                        out.append(('const', va, ast.Constant(value=None), list(anc) + [(b, f)]))
+                        continue
                     raise _Shape()
                 walk(va, vb, anc + [(b, f)])
+            elif va is None and isinstance(vb, ast.AST) and isinstance(a, ast.Slice):
+                out.append(('const', ast.Constant(value=None), vb, list(anc) + [(b, f)]))
             elif va != vb:
                 if isinstance(vb, ast.AST) or isinstance(va, ast.AST):
                     raise _Shape()
@@ -111,7 +128,23 @@ def _swapped(diffs, old, new):
     o1, o2 = _counterpart(old, new, stmts[0]), _counterpart(old, new, stmts[1])
     if o1 is None or o2 is None:
         return False
-    return ast.unparse(o1) == ast.unparse(stmts[1]) and ast.unparse(o2) == ast.unparse(stmts[0])
+    if not (ast.unparse(o1) == ast.unparse(stmts[1]) and ast.unparse(o2) == ast.unparse(stmts[0])):
+        return False
+    # two statements may change places unnoticed only if neither reads what the other writes and at most one of them calls
+    # anything (two calls may touch the same object: stack.pop() / stack.append())
+    def rw(st):
+        reads = {n.id for n in ast.walk(st) if isinstance(n, ast.Name) and isinstance(n.ctx, ast.Load)}
+        writes = {n.id for n in ast.walk(st) if isinstance(n, ast.Name) and isinstance(n.ctx, (ast.Store, ast.Del))}
+        writes |= {ast.unparse(n.value) for n in ast.walk(st) if isinstance(n, (ast.Attribute, ast.Subscript)) and isinstance(n.ctx, (ast.Store, ast.Del)) and isinstance(n.value, ast.Name)}
+        calls = sum(1 for n in ast.walk(st) if isinstance(n, ast.Call))
+        return reads, writes, calls
+    r1, w1, c1 = rw(stmts[0])
+    r2, w2, c2 = rw(stmts[1])
+    if (w1 & (r2 | w2)) or (w2 & r1) or (c1 and c2):
+        return False
+    if isinstance(stmts[0], (ast.Return, ast.Raise, ast.Break, ast.Continue)) or isinstance(stmts[1], (ast.Return, ast.Raise, ast.Break, ast.Continue)):
+        return False
+    return True
 
 
 TEST_FIELDS = {(ast.If, 'test'), (ast.While, 'test'), (ast.Assert, 'test'), (ast.IfExp, 'test'), (ast.comprehension, 'ifs')}
@@ -220,6 +253,10 @@ def rule_token(ctx, rid):
             if _message(anc, a, b):
                 r.ok(k2, fi.site, 'message text')
                 continue
+            if anc and isinstance(anc[-1][0], ast.Slice) and anc[-1][1] == 'lower' and kind == 'const' and isinstance(a, ast.Constant) and isinstance(b, ast.Constant) \
+                    and {repr(a.value), repr(b.value)} == {'None', '0'}:
+                r.ok(k2, fi.site, 'a lower bound of 0 is no lower bound')
+                continue
             tr = _test_root(anc)
             stmt_new = next((n for n, f in reversed(anc) if isinstance(n, ast.stmt)), None)
             if tr is not None:
@@ -257,6 +294,24 @@ def rule_token(ctx, rid):
                 r.undecided(k2, common.site_of(fi, holder if hasattr(holder, 'lineno') else fi.node), 'a test of %s changed in one token (%s): `%s` is not equivalent to the confirmed `%s`, and no rule of this property decides what that does'
                             % (fi.name, what, norm(new_test)[:70] if new_test is not None else '?', norm(old_test)[:70] if old_test is not None else '?'))
                 continue
+            # slice bounds: a lower bound 0 is the same as none; an upper bound may be dropped (or added) where the sequence is
+            # known to end there
+            if anc and isinstance(anc[-1][0], ast.Slice) and kind == 'const' and isinstance(a, ast.Constant) and isinstance(b, ast.Constant) and (a.value is None or b.value is None):
+                fld = anc[-1][1]
+                val = b.value if a.value is None else a.value
+                if fld == 'lower' and val == 0:
+                    r.ok(k2, fi.site, 'a lower bound of 0 is no lower bound')
+                    continue
+                sub = next((n for n, f in reversed(anc) if isinstance(n, ast.Subscript)), None)
+                if fld == 'upper' and sub is not None and isinstance(val, int) and stmt_new is not None:
+                    seq = ast.unparse(sub.value)
+                    try:
+                        here = _counterpart_in_repo(ctx.repo, fi, cur, stmt_new)
+                        if here is not None and (implied_at(ctx.repo, fi, here, 'len(%s) == %d' % (seq, val)) is True or implied_at(ctx.repo, fi, here, 'len(%s) <= %d' % (seq, val)) is True):
+                            r.ok(k2, fi.site, 'the sequence is known to end at %d there' % val)
+                            continue
+                    except Exception:
+                        pass
             ar = _arith_root(anc)
             if ar is not None:
                 new_e = anc[ar][0]
@@ -343,6 +398,32 @@ def _domains(fnode):
                         and (len(it.args) < 3 or (isinstance(it.args[2], ast.Constant) and it.args[2].value > 0)):
                     dom[n.target.id] = (0, None)
     return dom
+
+
+def _counterpart_in_repo(repo, fi, raw_fn, raw_stmt):
+    """the statement of the analysed tree (with parent links, as escape.implied_at needs) at the position of a statement
+    of the raw function; None when the pre-passes changed the shape"""
+    if raw_fn is fi.node:
+        return raw_stmt
+    path = _path_to(raw_fn, raw_stmt)
+    if path is None:
+        return None
+    cur = fi.node
+    for f, i in path:
+        v = getattr(cur, f, None)
+        if i is None:
+            cur = v
+        else:
+            lst = v
+            if f in ('body', 'orelse', 'finalbody') and lst and isinstance(lst[0], ast.stmt):
+                lst = _strip_doc(lst)
+                lst = [s_ for s_ in lst if not isinstance(s_, ast.Pass)] if len(lst) > 1 else lst
+            if not isinstance(lst, list) or i >= len(lst):
+                return None
+            cur = lst[i]
+        if cur is None:
+            return None
+    return cur if type(cur) is type(raw_stmt) else None
 
 
 _raw_cache = {}
